@@ -57,11 +57,16 @@ pub struct World {
     /// when false, Int leaves stay small and strings plain (used where values
     /// feed arguments of other checks)
     pub wild_leaves: bool,
+    /// Dynamic-schema resolvers can express a null list item only for built-in
+    /// scalars (`FieldValue::NULL` is also the "stateless object" value and is
+    /// not accepted for enums / validated scalars), so worlds for dynamic
+    /// schemas keep other list items non-null.
+    pub null_items_builtin_only: bool,
 }
 
 impl World {
     pub fn new(seed: u64) -> World {
-        World { seed, faults: BTreeMap::new(), null_pct: 15, wild_leaves: true }
+        World { seed, faults: BTreeMap::new(), null_pct: 15, wild_leaves: true, null_items_builtin_only: false }
     }
 
     pub fn with_faults(&self, f: &[(String, Fault)]) -> World {
@@ -145,7 +150,17 @@ impl World {
                         out.push(PlanVal::Error(format!("boom@{p}")));
                         continue;
                     }
-                    out.push(self.gen_val(ts, item, &mut ri, rng::mix(&[id_seed, i as u64 + 1]), &p));
+                    let mut v = self.gen_val(ts, item, &mut ri, rng::mix(&[id_seed, i as u64 + 1]), &p);
+                    if v == PlanVal::Null
+                        && self.null_items_builtin_only
+                        && !(item.list_depth() == 0 && TypeSystem::is_builtin_scalar(item.name()))
+                        && self.faults.get(&p).is_none()
+                    {
+                        // redraw without the null option
+                        let mut rj = r.fork(1000 + i as u64);
+                        v = self.gen_inner(ts, item, &mut rj, rng::mix(&[id_seed, i as u64 + 1]), &p, None);
+                    }
+                    out.push(v);
                 }
                 PlanVal::List(out)
             }
